@@ -259,6 +259,7 @@ def evaluate(ctx, case):
     accepted = []            # species index per entry of different_molecules
     adds = []
     expected_inst = []       # (species k, block index)
+    inter_cursor = [0]
     for k, ftop in zip(load, tops):
         before = _state(sysm)
         before_list = None
@@ -312,6 +313,22 @@ def evaluate(ctx, case):
                                         {"species": species[k]["name"], "changed": changed})
             elif status != "A":
                 ctx.count("refused-names:" + status)
+        # integer reads interleaved with the loads, at consecutive indexes (read k, load, read k+1: seed C11-9, a
+        # sequential cursor that a load does not invalidate): each must be the molecule iteration gives at that time
+        if in_quantifier and len(adds) <= 4 and not isinstance(after["len"], str):
+            try:
+                now = [_mol_view(sysm, m, None) for m in sysm]
+                if inter_cursor[0] < len(now):
+                    ctx.oracle_ok()
+                    g1 = _mol_view(sysm, sysm[inter_cursor[0]], None)
+                    if g1 != now[inter_cursor[0]]:
+                        ctx.oracle_fail("System.__getitem__(int):differs-from-list:between-loads", case,
+                                        {"index": inter_cursor[0], "loaded_so_far": len(adds),
+                                         "got_top": g1[0], "want_top": now[inter_cursor[0]][0]})
+                    inter_cursor[0] += 1
+            except Exception as e:
+                ctx.oracle_fail("System.__getitem__(int):raises-" + G.err_name(e) + ":between-loads", case,
+                                {"index": inter_cursor[0]})
         if status == "A":
             accepted.append(k)
             # greedy left-to-right consumption of non-overlapping runs = what "instances present" means
